@@ -13,6 +13,7 @@ import (
 	"go/types"
 	"strings"
 
+	"verif/engine/solver"
 	"verif/engine/sym"
 )
 
@@ -21,6 +22,7 @@ type fmtVerb struct {
 	verb  byte   // 0 for trailing literal
 	zero  bool
 	width int
+	prec  int    // -1 = none
 	spec  string // the verb spec as written, e.g. "%08b"
 }
 
@@ -49,6 +51,15 @@ func parseFormat(f string) ([]fmtVerb, bool) {
 		for k < len(f) && f[k] >= '0' && f[k] <= '9' {
 			v.width = v.width*10 + int(f[k]-'0')
 			k++
+		}
+		v.prec = -1
+		if k < len(f) && f[k] == '.' {
+			k++
+			v.prec = 0
+			for k < len(f) && f[k] >= '0' && f[k] <= '9' {
+				v.prec = v.prec*10 + int(f[k]-'0')
+				k++
+			}
 		}
 		if k >= len(f) {
 			return nil, false
@@ -167,6 +178,53 @@ func symFormatInt(t *sym.Term, signed bool, base int, zero bool, width int, uppe
 	return out
 }
 
+// symFormatFixed renders a symbolic float with %.<prec>f (prec <= 3): the
+// digits are those of round-half-even(|x| * 10^prec) on the exact binary value
+// (sym.FFixedScaled, tested against strconv); the sign and the number of
+// integer digits fork. Non-finite values and magnitudes >= 2^62 / 10^prec are
+// outside the model (the path is abandoned as unsupported if they are feasible).
+func symFormatFixed(t *sym.Term, prec int) []value {
+	ps := psOf(t)
+	cx := ps.cx
+	scale := uint64(1)
+	for k := 0; k < prec; k++ {
+		scale *= 10
+	}
+	ok, neg, q := cx.FFixedScaled(t, scale)
+	if !ps.branch(ok) {
+		unsupported("fixed-point formatting of a non-finite or huge symbolic float")
+	}
+	// narrow the digits to the smallest width the path allows (cheaper division)
+	w := 64
+	for _, k := range []int{16, 32} {
+		if ps.check(cx.Cmp(sym.OpUle, cx.Const(64, uint64(1)<<uint(k)), q)) == solver.Unsat {
+			w = k
+			break
+		}
+	}
+	if w < 64 {
+		q = cx.Extract(q, w-1, 0)
+	}
+	var out []value
+	if ps.branch(neg) {
+		out = append(out, uint8('-'))
+	}
+	ip := cx.Bin(sym.OpUDiv, q, cx.Const(w, scale))
+	out = append(out, symFormatInt(ip, false, 10, false, 0, false)...)
+	if prec > 0 {
+		out = append(out, uint8('.'))
+		fp := cx.Bin(sym.OpURem, q, cx.Const(w, scale))
+		u8 := types.Typ[types.Uint8]
+		pw := scale / 10
+		for k := 0; k < prec; k++ {
+			d := cx.Bin(sym.OpURem, cx.Bin(sym.OpUDiv, fp, cx.Const(w, pw)), cx.Const(w, 10))
+			out = append(out, norm(u8, cx.Bin(sym.OpAdd, cx.Extract(d, 7, 0), cx.Const(8, '0'))))
+			pw /= 10
+		}
+	}
+	return out
+}
+
 // symSprintf returns (text bytes, true) when the format and arguments are
 // within the model, else (nil, false).
 func (i *interpreter) symSprintf(format string, args []value) ([]value, bool) {
@@ -191,7 +249,14 @@ func (i *interpreter) symSprintf(format string, args []value) ([]value, bool) {
 		}
 		if t, isSym := a.v.(*sym.Term); isSym {
 			b := basicOf(a.t)
-			if b == nil || b.Info()&types.IsInteger == 0 {
+			if b != nil && b.Info()&types.IsFloat != 0 && v.verb == 'f' && v.prec >= 0 && v.prec <= 3 && v.width == 0 && !v.zero {
+				if _, named := a.t.(*types.Named); named && hasStringer(a.t) {
+					return nil, false
+				}
+				out = append(out, symFormatFixed(t, v.prec)...)
+				continue
+			}
+			if b == nil || b.Info()&types.IsInteger == 0 || v.prec >= 0 {
 				return nil, false
 			}
 			if _, named := a.t.(*types.Named); named && hasStringer(a.t) {
